@@ -273,6 +273,26 @@ type shadow struct {
 	tmp    map[int]ot.Wire
 	maxTw  int // largest tweak observed so far, -1 at the start
 	budget int // remaining extra search steps
+	// definedness (the label-level invariant, see checkInput): the block in
+	// which a temporary wire was last written; the size of the garbler's
+	// temporary table (Streaming.initCircuit allocates a fresh, all-zero one
+	// when an instruction circuit has more wires than any before and keeps
+	// the old contents otherwise)
+	blocks   []sBlock
+	tmpBlk   map[int]int
+	tmpLen   int
+	curBlock int
+	// gate inputs that are not a defined wire / not a label pair
+	undefined  []map[string]any
+	nUndefined int
+	badPairs   []map[string]any
+	nBadPairs  int
+	degenerate []map[string]any
+	nDegen     int
+	// which wires are defined, independently of whether the shadow could
+	// re-derive their labels
+	defGlob map[int]bool
+	tmpDef  map[int]int
 	// every hash query: AES input block -> first gate that made it
 	queries map[u128]int
 	role    map[u128]string
@@ -289,7 +309,8 @@ func newShadow(key []byte, r ot.Label) (*shadow, error) {
 		return nil, err
 	}
 	return &shadow{alg: alg, r: r, glob: map[int]ot.Wire{}, tmp: map[int]ot.Wire{}, maxTw: -1, budget: 4 << 20,
-		queries: map[u128]int{}, role: map[u128]string{}}, nil
+		queries: map[u128]int{}, role: map[u128]string{}, tmpBlk: map[int]int{}, curBlock: -1,
+		defGlob: map[int]bool{}, tmpDef: map[int]int{}}, nil
 }
 
 // hk: pi(k) xor k.
@@ -413,21 +434,143 @@ func (s *shadow) note(t int) {
 	}
 }
 
+// setInput installs the pair of a session input wire.
+func (s *shadow) setInput(id int, w ot.Wire) {
+	s.glob[id] = w
+	s.defGlob[id] = true
+}
+
+// lookup returns what the garbler's wire tables hold for a gate input and
+// whether that is a DEFINED wire: a global wire that is an input of the session
+// or was written by an earlier gate; a temporary wire that was written by an
+// earlier gate of the SAME instruction circuit.  For an undefined wire the
+// content is what the real tables hold: the value a previous instruction
+// circuit left in the slot, or the all-zero pair of a never-written slot.
+// have is false when the wire is defined but the shadow could not re-derive
+// its labels (a row upstream was not reproduced).
+func (s *shadow) lookup(tmp bool, id int) (w ot.Wire, have, defined bool, state string) {
+	if tmp {
+		w, ok := s.tmp[id]
+		if blk, def := s.tmpDef[id]; def && blk == s.curBlock {
+			return w, ok, true, ""
+		}
+		if !ok {
+			return ot.Wire{}, true, false, "never written: both labels are zero in the garbler's table"
+		}
+		return w, true, false, fmt.Sprintf("not written in this instruction circuit: the slot holds the pair block %d left there",
+			s.tmpBlk[id])
+	}
+	w, ok := s.glob[id]
+	if s.defGlob[id] {
+		return w, ok, true, ""
+	}
+	if !ok {
+		return ot.Wire{}, true, false, "never written: both labels are zero in the garbler's table"
+	}
+	return w, true, false, "not written by the session: the slot holds an earlier pair"
+}
+
+func wireName(tmp bool, id int) string {
+	if tmp {
+		return fmt.Sprintf("t%d", id)
+	}
+	return fmt.Sprintf("w%d", id)
+}
+
+func isZero(l ot.Label) bool { return l.D0 == 0 && l.D1 == 0 }
+
+// checkInput is the label-level invariant on one gate input: the wire is
+// defined and its two labels differ by the offset (in particular they are not
+// equal).  Every row the garbler transmits is computed from such pairs; the
+// symbolic model of Props/C04.lean assumes exactly this of every gate input
+// (wfFrom / InvS), and C04_undefined_input_and_rows says what is transmitted
+// otherwise.
+func (s *shadow) checkInput(gates []sGate, i int, which string, tmp bool, id int, w ot.Wire, defined bool, state string) {
+	if !defined {
+		s.nUndefined++
+		if len(s.undefined) < 6 {
+			s.undefined = append(s.undefined, map[string]any{"gate": gateName(gates, i), "input": which,
+				"wire": wireName(tmp, id), "state": state})
+		}
+	}
+	if !xor(w.L0, w.L1).Equal(s.r) {
+		s.nBadPairs++
+		if len(s.badPairs) < 6 {
+			why := "the two labels do not differ by the offset"
+			if w.L0.Equal(w.L1) {
+				why = "the two labels are equal"
+				if isZero(w.L0) {
+					why = "the two labels are equal (both zero)"
+				}
+			}
+			s.badPairs = append(s.badPairs, map[string]any{"gate": gateName(gates, i), "input": which,
+				"wire": wireName(tmp, id), "why": why})
+		}
+	}
+}
+
+// degenerateRows names transmitted rows that are the offset itself, zero, or
+// a label of one of the gate's input wires (possibly shifted by the offset).
+func (s *shadow) degenerateRows(stream []byte, gates []sGate, i int, a, b ot.Wire) {
+	g := &gates[i]
+	for k, off := range g.rowOff {
+		row := lbl(stream[off:])
+		what := ""
+		switch {
+		case row.Equal(s.r):
+			what = "the offset R"
+		case isZero(row):
+			what = "zero"
+		case row.Equal(a.L0) || row.Equal(a.L1):
+			what = "a label of input a (" + wireName(g.aTmp, g.a) + ")"
+		case g.op != gINV && (row.Equal(b.L0) || row.Equal(b.L1)):
+			what = "a label of input b (" + wireName(g.bTmp, g.b) + ")"
+		}
+		if what == "" {
+			continue
+		}
+		s.nDegen++
+		if len(s.degenerate) < 6 {
+			s.degenerate = append(s.degenerate, map[string]any{"gate": gateName(gates, i), "row": k, "offset": off,
+				"row_is": what})
+		}
+	}
+}
+
 // run walks the gate records; stream is the byte stream the row offsets refer to.
 func (s *shadow) run(stream []byte, gates []sGate) {
 	for i := range gates {
 		g := &gates[i]
-		a, okA := s.get(g.aTmp, g.a)
-		var b ot.Wire
-		okB := true
-		if g.op != gINV {
-			b, okB = s.get(g.bTmp, g.b)
+		if g.block != s.curBlock {
+			s.curBlock = g.block
+			if g.block < len(s.blocks) && s.blocks[g.block].numWires > s.tmpLen {
+				s.tmp = map[int]ot.Wire{}
+				s.tmpBlk = map[int]int{}
+				s.tmpLen = s.blocks[g.block].numWires
+			}
 		}
-		if !okA || !okB {
+		a, haveA, defA, stA := s.lookup(g.aTmp, g.a)
+		var b ot.Wire
+		haveB, defB, stB := true, true, ""
+		if g.op != gINV {
+			b, haveB, defB, stB = s.lookup(g.bTmp, g.b)
+		}
+		// the output is a defined wire from here on, whatever its labels are
+		if g.cTmp {
+			s.tmpDef[g.c] = g.block
+		} else {
+			s.defGlob[g.c] = true
+		}
+		if !haveA || !haveB {
 			s.unknownInput++
 			s.forget(g.cTmp, g.c)
 			continue
 		}
+		s.checkInput(gates, i, "a", g.aTmp, g.a, a, defA, stA)
+		if g.op != gINV {
+			s.checkInput(gates, i, "b", g.bTmp, g.b, b, defB, stB)
+		}
+		s.degenerateRows(stream, gates, i, a, b)
 		row := func(k int) ot.Label { return lbl(stream[g.rowOff[k]:]) }
 		g.known, g.pa, g.pb = true, a.L0.S(), g.op != gINV && b.L0.S()
 		var c ot.Wire
@@ -560,7 +703,59 @@ func (s *shadow) run(stream []byte, gates []sGate) {
 			continue
 		}
 		s.set(g.cTmp, g.c, c)
+		if g.cTmp {
+			s.tmpBlk[g.c] = g.block
+		}
 	}
+}
+
+// defOp renders the stream as ONE gate list over ONE wire space (the form the
+// streaming theorems of Props/C04.lean speak about: streamGarbleAcc over a
+// store of n wires whose first nIn are the session's input wires) together
+// with the harness's own verdict whether every gate input is a defined wire.
+// The Lean driver answers with wfFrom on the same list (op c04def).
+func defOp(gates []sGate, nIn int, undefinedReads int) (op, res string) {
+	maxGlob := nIn - 1
+	for i := range gates {
+		g := &gates[i]
+		for _, x := range [][2]any{{g.aTmp, g.a}, {g.bTmp, g.b}, {g.cTmp, g.c}} {
+			if !x[0].(bool) && x[1].(int) > maxGlob {
+				maxGlob = x[1].(int)
+			}
+		}
+	}
+	base := maxGlob + 1
+	names := map[[2]int]int{}
+	name := func(tmp bool, id, block int) int {
+		if !tmp {
+			return id
+		}
+		k := [2]int{block, id}
+		n, ok := names[k]
+		if !ok {
+			n = base + len(names)
+			names[k] = n
+		}
+		return n
+	}
+	var sb strings.Builder
+	for i := range gates {
+		g := &gates[i]
+		if i > 0 {
+			sb.WriteByte(';')
+		}
+		bb := 0
+		if g.op != gINV {
+			bb = name(g.bTmp, g.b, g.block)
+		}
+		fmt.Fprintf(&sb, "%s%d.%d.%d", kindLetter[g.op], name(g.aTmp, g.a, g.block), bb, name(g.cTmp, g.c, g.block))
+	}
+	if len(gates) == 0 {
+		sb.WriteByte('-')
+	}
+	n := base + len(names)
+	return fmt.Sprintf("c04def def %d %d %s", n, nIn, sb.String()),
+		fmt.Sprintf("gates=%d wires=%d inputs=%d defined=%v", len(gates), n, nIn, undefinedReads == 0)
 }
 
 func idx1(l ot.Label) int {
